@@ -127,11 +127,24 @@ func addrCmd(args []string) error {
 	rng := newRand(15)
 	var valid []string
 	edges := [][]byte{make([]byte, 20), bytesRepeat(0xff, 20), append(make([]byte, 10), bytesRepeat(7, 10)...), append([]byte{0, 0, 1}, bytesRepeat(0xee, 17)...)}
-	for i := 0; i < *n; i++ {
+	// 0..4 leading zero bytes x the first significant byte on digit-count boundaries of the Base58 expansion
+	for z := 0; z <= 4; z++ {
+		for _, b := range []byte{0x01, 0x7f, 0x80, 0xd5, 0xd6, 0xd7, 0xff} {
+			for _, fill := range []byte{0x00, 0xff} {
+				h := make([]byte, 20)
+				h[z] = b
+				for k := z + 1; k < 20; k++ {
+					h[k] = fill
+				}
+				edges = append(edges, h)
+			}
+		}
+	}
+	for i := 0; i < *n+2*len(edges); i++ {
 		mainnet := i%2 == 0
 		var key, h []byte
-		if i < len(edges) {
-			h = edges[i]
+		if i < 2*len(edges) {
+			h, mainnet = edges[i%len(edges)], i < len(edges) // every edge hash on both networks
 		} else if i%3 == 0 {
 			h = randBytes(rng, 20)
 		} else {
